@@ -178,13 +178,15 @@ def rule_u2(ctx):
                 res.bad(Finding("U2", fid, "no test %s == %s" % w, "the %s optimiser no longer folds the case %s == %s" % (variant, w[0], w[1]), body.fn["sp"]))
     gc = ctx.body("circuit::CircuitBuilder::get_cached")
     orders = set()
-    for blk in gc.blocks:
-        for st in blk["stmts"]:
-            if st["k"] == "assign" and st["rv"]["k"] == "aggregate" and st["rv"].get("adt") == "circuit::BuilderGate":
-                srcs = []
-                for o in st["rv"]["ops"]:
-                    srcs.append(tuple(sorted(p[-1] for (r, p) in gc.trace_operand(o) if p)))
-                orders.add((st["rv"]["variant"], tuple(srcs)))
+    gc_closures = [ctx.body(c) for c in sorted(ctx.cg.closures_of.get(gc.id, ())) if ctx.has_fn(c)]
+    for ub in [gc] + gc_closures:
+        for blk in ub.blocks:
+            for st in blk["stmts"]:
+                if st["k"] == "assign" and st["rv"]["k"] == "aggregate" and st["rv"].get("adt") == "circuit::BuilderGate":
+                    srcs = []
+                    for o in st["rv"]["ops"]:
+                        srcs.append(tuple(sorted(p[-1] for (r, p) in ub.trace_operand(o) if p)))
+                    orders.add((st["rv"]["variant"], tuple(srcs)))
     for v in ("And", "Xor"):
         if (v, (("1",), ("0",))) in orders:
             res.ok({"function": "get_cached", "gate": v, "verdict": "swapped operand order is looked up too"})
@@ -198,8 +200,34 @@ def rule_u2(ctx):
             raise AnchorMissing("U2: get_cached no longer starts with one direct lookup of the requested gate")
     else:
         fb, ft = first[0]
+        # `self.cache.get(gate).or_else(|| <swapped lookup>)`: the closure is exactly the path after a miss
+        after_miss = None
+        for b, t in gc.calls():
+            if t["func"].get("declared") == "std::option::Option::<T>::or_else" and len(t["args"]) == 2 and t["args"][1]["k"] in ("copy", "move") and \
+                    any(r[:2] == ("call", fb) for (r, p) in gc.trace_operand(t["args"][0], through={})):
+                cids = [gc.blocks[r[1]]["stmts"][r[2]]["rv"].get("closure") for (r, p) in gc.trace(t["args"][1]["place"], through={}) if r[0] == "agg"]
+                if len(cids) == 1 and cids[0] and ctx.has_fn(cids[0]) and (t["dest"]["l"] == 0 or any(r[:2] == ("call", b) for d in gc.defs().get(0, []) if d[0] == "assign"
+                                                                                                   for o in [d[3]["rv"].get("op")] if o and o["k"] in ("copy", "move")
+                                                                                                   for (r, p) in gc.trace_operand(o, through={}))):
+                    after_miss = ctx.body(cids[0])
+        for v in ("And", "Xor") if after_miss is not None else ():
+            cb = after_miss
+            sw = {b for b, blk in enumerate(cb.blocks) for st in blk["stmts"]
+                  if st["k"] == "assign" and st["rv"]["k"] == "aggregate" and st["rv"].get("adt") == "circuit::BuilderGate" and st["rv"]["variant"] == v}
+            gets = {b for b, t in cb.calls() if mir.last_seg(mir.callee(t) or "") == "get" and
+                    any(r[0] == "agg" and r[1] in sw for (r, p) in cb.trace_operand(t["args"][1]))}
+            aps = {info[0] for b in range(cb.n) for info in [cb.switch_info(b)] if info and info[0] and info[2] == "circuit::BuilderGate"}
+            crets = [b for b in range(cb.n) if cb.term(b) and cb.term(b)["k"] == "return"]
+            if not gets or len(aps) != 1:
+                continue
+            w = cb.path(0, crets, blocked=gets, succ=cb.pruned_succ({next(iter(aps)): v}))
+            if w:
+                res.bad(Finding("U2", gc.id, "%s: swapped lookup is skipped on some path" % v,
+                                "after the direct lookup missed, a path through the or_else closure returns without looking (y, x) up (blocks %s)" % w, cb.fn["sp"]))
+            else:
+                res.ok({"function": "get_cached", "gate": v, "verdict": "the swapped lookup lies on every path of the or_else closure"})
         hit = {x for (_, x) in C02._some_edges(gc, ft)}
-        for v in ("And", "Xor"):
+        for v in ("And", "Xor") if after_miss is None else ():
             sw = set()
             for b, blk in enumerate(gc.blocks):
                 for st in blk["stmts"]:
